@@ -24,8 +24,9 @@ import (
 //   S2  a pointer/map/func value that merges a nil constant (var p *T; if c
 //       { p = f() });
 //   S3  a nil constant handed to a repository function as an argument;
-//   S4  the result of a repository function without an error result that
-//       returns a literal nil on some path.
+// (Results of helpers that can return a literal nil are not a source: whether
+// the caller may rely on the result is a correlation with the helper's
+// arguments — "last entry of a non-empty list" — that this rule cannot see.)
 // Uses that need the reference: field access or load through it, store
 // through it, assignment into a map, call of a function value or interface
 // method, call of a library method with it as receiver, and handing it to a
@@ -286,7 +287,7 @@ func (n *nilOpt) uses(v ssa.Value) []nilUse {
 
 // nilTestEdges: the branch edges on which a value with one of the keys is
 // known non-nil.
-func (n *nilOpt) nilTestEdges(fn *ssa.Function, match func(ssa.Value) bool) map[[2]int]bool {
+func (n *nilOpt) nilTestEdges(fn *ssa.Function, match func(ssa.Value) bool, pred func(*ssa.Call) bool) map[[2]int]bool {
 	cut := map[[2]int]bool{}
 	classify := func(cond ssa.Value) (onTrue, onFalse bool) {
 		neg := false
@@ -296,6 +297,10 @@ func (n *nilOpt) nilTestEdges(fn *ssa.Function, match func(ssa.Value) bool) map[
 				break
 			}
 			cond, neg = u.X, !neg
+		}
+		if call, isCall := cond.(*ssa.Call); isCall && pred != nil && pred(call) {
+			// a predicate helper that answers true only when the reference is present
+			return !neg, neg
 		}
 		b, ok := cond.(*ssa.BinOp)
 		if !ok || (b.Op != token.EQL && b.Op != token.NEQ) {
@@ -413,6 +418,17 @@ func (n *nilOpt) holdsAt(fn *ssa.Function, key string, f *types.Var, at ssa.Inst
 	cut := n.nilTestEdges(fn, func(x ssa.Value) bool {
 		b, fl, ok := fieldOfLoad(x)
 		return ok && fl == f && fieldKey(b, fl) == key
+	}, func(call *ssa.Call) bool {
+		g := call.Call.StaticCallee()
+		if g == nil || g.Blocks == nil || !isShipped(n.c, g) || d >= 3 || len(g.Params) != len(call.Call.Args) {
+			return false
+		}
+		for i, a := range call.Call.Args {
+			if fieldKey(a, f) == key && n.impliesField(g, i, f, d+1) {
+				return true
+			}
+		}
+		return false
 	})
 	// transfer within a block
 	step := func(in ssa.Instruction, st bool) bool {
@@ -569,6 +585,78 @@ func (n *nilOpt) establishes(g *ssa.Function, i int, f *types.Var, d int) bool {
 	return false
 }
 
+// impliesField: g is a predicate (one boolean result) that answers true only
+// when field f of its parameter i is non-nil: every return hands back false,
+// the nil test itself, or a value computed where the field is known present.
+func (n *nilOpt) impliesField(g *ssa.Function, i int, f *types.Var, d int) bool {
+	mk := fmt.Sprintf("imp/%s/%d/%s", g.String(), i, fieldTok(f))
+	if v, ok := n.estMemo[mk]; ok {
+		return v == 1
+	}
+	n.estMemo[mk] = 0
+	res := g.Signature.Results()
+	if res.Len() != 1 || i >= len(g.Params) {
+		return false
+	}
+	if b, ok := res.At(0).Type().Underlying().(*types.Basic); !ok || b.Kind() != types.Bool {
+		return false
+	}
+	key := fieldKey(g.Params[i], f)
+	isFalse := func(v ssa.Value) bool {
+		k, ok := v.(*ssa.Const)
+		return ok && k.Value != nil && k.Value.String() == "false"
+	}
+	isTest := func(v ssa.Value) bool {
+		b, ok := v.(*ssa.BinOp)
+		if !ok || b.Op != token.NEQ {
+			return false
+		}
+		x := b.X
+		if ssau.IsNilConst(b.X) {
+			x = b.Y
+		} else if !ssau.IsNilConst(b.Y) {
+			return false
+		}
+		base, fl, ok := fieldOfLoad(x)
+		return ok && fl == f && fieldKey(base, fl) == key
+	}
+	rets := 0
+	for _, b := range g.Blocks {
+		if len(b.Instrs) == 0 {
+			continue
+		}
+		ret, ok := b.Instrs[len(b.Instrs)-1].(*ssa.Return)
+		if !ok {
+			continue
+		}
+		rets++
+		v := ret.Results[0]
+		if isFalse(v) || isTest(v) {
+			continue
+		}
+		if ph, ok := v.(*ssa.Phi); ok {
+			for j, e := range ph.Edges {
+				if isFalse(e) || isTest(e) {
+					continue
+				}
+				pb := ph.Block().Preds[j]
+				if len(pb.Instrs) == 0 || !n.holdsAt(g, key, f, pb.Instrs[len(pb.Instrs)-1], false, d) {
+					return false
+				}
+			}
+			continue
+		}
+		if !n.holdsAt(g, key, f, ret, false, d) {
+			return false
+		}
+	}
+	if rets == 0 {
+		return false
+	}
+	n.estMemo[mk] = 1
+	return true
+}
+
 // entryHolds: fn is a helper that every caller enters with the field of the
 // object it hands over established.
 func (n *nilOpt) entryHolds(fn *ssa.Function, p *ssa.Parameter, f *types.Var, d int) bool {
@@ -632,7 +720,7 @@ func (n *nilOpt) entryHolds(fn *ssa.Function, p *ssa.Parameter, f *types.Var, d 
 // found non-nil.
 func (n *nilOpt) valueGuarded(v ssa.Value, at ssa.Instruction) bool {
 	fn := at.Parent()
-	cut := n.nilTestEdges(fn, func(x ssa.Value) bool { return x == v })
+	cut := n.nilTestEdges(fn, func(x ssa.Value) bool { return x == v }, nil)
 	if len(cut) == 0 {
 		return false
 	}
@@ -815,18 +903,6 @@ func nilOptRun(c *Ctx, rule string, keep func(f *types.Var) bool, values bool, s
 							nm = "merge"
 						}
 						note(fk+"#maybe-nil:"+nm, c.P.Pos(firstPos(x)), bad, uses)
-					}
-				case *ssa.Call: // S4
-					g := x.Call.StaticCallee()
-					if g == nil || g.Blocks == nil || !isShipped(c, g) || g.Signature.Results().Len() != 1 {
-						continue
-					}
-					if !returnsNilLiteral(g) {
-						continue
-					}
-					bad, uses := n.checkValue(v, false)
-					if uses > 0 {
-						note(fk+"#result-of:"+load.FuncKey(g), c.P.Pos(x.Pos()), bad, uses)
 					}
 				}
 			}
